@@ -233,11 +233,16 @@ def callStarts (p : Prog) (name : String) (tr : List Event) : Nat :=
     | .bodyStart n => (match (node p n).kind with | .call nm => nm == name | _ => false)
     | _ => false)).length
 
+def macroNamed (p : Prog) (k : Nat) (name : String) : Bool :=
+  match (node p k).kind with
+  | .macro nm => nm == name
+  | _ => false
+
 /-- **Full statement of "once per call"**: for a macro with a single definition, the number of invocations
     of its body (`run_started_count`) equals the number of calls that ran. -/
 def C41_once_full : Prop :=
   ∀ (p : Prog) (reqs : List Req) (m : Nat) (name : String),
-    (node p m).kind = .macro name → (∀ m', (node p m').kind = .macro name → m' = m) →
+    macroNamed p m name = true → (∀ m', macroNamed p m' name = true → m' = m) →
     ((final p reqs).rt m).runStarted = callStarts p name (trace p reqs)
 
 /-- `Macro: A` [`Mark: a1`, `Wait: 6s`, `Mark: a2`] / `Watch: T0 > 0` [`Call macro: A`, `Mark: w`] /
@@ -265,12 +270,12 @@ theorem C41_once_counterexample : ¬ C41_once_full := by
   intro h
   have h1 := h overlap overlapSched 1 "A" rfl (by
     intro m' hm'
-    have : m' < 10 ∨ 10 ≤ m' := Nat.lt_or_ge m' 10
-    rcases this with h | h
-    · have : ∀ k, k < 10 → (node overlap k).kind = .macro "A" → k = 1 := by decide
+    rcases Nat.lt_or_ge m' 10 with h | h
+    · have : ∀ k, k < 10 → macroNamed overlap k "A" = true → k = 1 := by decide
       exact this m' h hm'
     · have : node overlap m' = default := by
         unfold node; simp [Array.getD, overlap]; omega
+      unfold macroNamed at hm'
       rw [this] at hm'; cases hm')
   have h2 : ((final overlap overlapSched).rt 1).runStarted = 1 ∧ callStarts overlap "A" (trace overlap overlapSched) = 2 ∧
       (final overlap overlapSched).marks = ["a1", "a2", "e", "w"] := by decide +kernel
@@ -309,24 +314,22 @@ theorem started_macro_edit_is_rejected (mm : MM) (new : Method) (name : String) 
       | some k => isMacro new.prog k = false ∨ matchesSrc mm.m new mnode k = false) :
     edit mm new = (mm, .rejected) := by
   have hv : validate mm new = false := by
-    unfold validate
-    simp only [hshared, if_true]
-    have : (mm.st.macros.all (fun x =>
-        if (getRt mm.st x.2).runStarted > 0 then
-          match indexOfId new (idOf mm.m x.2) with
-          | none => false
-          | some k => isMacro new.prog k && matchesSrc mm.m new x.2 k
-        else true)) = false := by
-      rw [List.all_eq_false]
-      refine ⟨(name, mnode), hreg, ?_⟩
-      simp only [gt_iff_lt, hstarted, if_true]
+    cases hv : validate mm new with
+    | false => rfl
+    | true =>
+      exfalso
+      unfold validate at hv
+      simp only [hshared, if_true, Bool.and_eq_true] at hv
+      have := List.all_eq_true.mp hv.2 (name, mnode) hreg
+      simp only [gt_iff_lt, hstarted, if_true] at this
       cases hi : indexOfId new (idOf mm.m mnode) with
-      | none => simp
+      | none => rw [hi] at this; simp at this
       | some k =>
-        rw [hi] at hchanged
-        simp only [] at hchanged
-        rcases hchanged with h | h <;> simp [h]
-    simp only [this, Bool.and_false]
+        rw [hi] at this hchanged
+        simp only [Bool.and_eq_true] at this hchanged
+        rcases hchanged with h | h
+        · rw [h] at this; exact absurd this.1 (by simp)
+        · rw [h] at this; exact absurd this.2 (by simp)
   unfold edit
   simp only [hshared, hrun, Bool.and_self, if_true, hv, Bool.false_eq_true, if_false]
 
